@@ -13,6 +13,10 @@ import (
 
 // ---- AST dump: the S-expression syntax read by lean/Grol/Eval/Sexp.lean ----
 
+// dumpCacheKeys: include each function literal's cache key (its printed form) in the dump; the macro
+// suite turns it off (a tree holding a nil node cannot be printed, and the model cannot recompute keys).
+var dumpCacheKeys = true
+
 func dumpNodes(sb *strings.Builder, nodes []ast.Node) {
 	for _, n := range nodes {
 		sb.WriteByte(' ')
@@ -95,7 +99,10 @@ func dumpNode(sb *strings.Builder, n ast.Node) {
 		if !fn.Lambda && fn.Name == nil {
 			fn.Lambda = true
 		}
-		key := object.SetCacheKey(&fn)
+		key := ""
+		if dumpCacheKeys {
+			key = object.SetCacheKey(&fn)
+		}
 		name := "-"
 		if v.Name != nil {
 			name = hx(v.Name.Literal())
@@ -134,7 +141,13 @@ func dumpNode(sb *strings.Builder, n ast.Node) {
 	case *ast.Comment:
 		sb.WriteString("(cmt)")
 	case *ast.MacroLiteral:
-		sb.WriteString("(macro)")
+		sb.WriteString("(macro (params")
+		for _, p := range v.Parameters {
+			sb.WriteString(" " + hx(p.Value().Literal()))
+		}
+		sb.WriteString(") ")
+		dumpNode(sb, v.Body)
+		sb.WriteByte(')')
 	default:
 		sb.WriteString(fmt.Sprintf("(unknown %T)", n))
 	}
